@@ -381,6 +381,24 @@ func (g *Gen) FieldClasses(md protoreflect.MessageDescriptor, fd protoreflect.Fi
 				g.fill(m.Mutable(fd).Message(), v, 2)
 				out = append(out, LMsg{"msg-full" + itoa(v), m})
 			}
+			// partially populated children: only the first / only the last scalar field
+			var scal []protoreflect.FieldDescriptor
+			cf := fd.Message().Fields()
+			for i := 0; i < cf.Len(); i++ {
+				if c := cf.Get(i); c.Message() == nil && !c.IsList() && !c.IsMap() && c.ContainingOneof() == nil {
+					scal = append(scal, c)
+				}
+			}
+			if len(scal) >= 2 {
+				for _, pick := range []struct {
+					label string
+					f     protoreflect.FieldDescriptor
+				}{{"msg-partial-first", scal[0]}, {"msg-partial-last", scal[len(scal)-1]}} {
+					m := mk()
+					m.Mutable(fd).Message().Set(pick.f, g.nonDefault(pick.f, 1))
+					out = append(out, LMsg{pick.label, m})
+				}
+			}
 		}
 	default:
 		if fd.HasPresence() {
@@ -417,7 +435,54 @@ func (g *Gen) All(md protoreflect.MessageDescriptor) []LMsg {
 		}
 	}
 	if DefaultCombos > 0 && !g.Opt.URLSafe {
+		out = append(out, g.Pairs(md)...)
 		out = append(out, g.Combos(md, DefaultCombos)...)
+	}
+	return out
+}
+
+// Pairs returns, for every ordered pair of singular message-typed sibling fields, the
+// combinations in which one child is richer than the other (full/empty, full/partial,
+// partial/partial, empty/full): what one child leaves unset must not be filled from a sibling.
+func (g *Gen) Pairs(md protoreflect.MessageDescriptor) []LMsg {
+	fds := md.Fields()
+	var msgs []protoreflect.FieldDescriptor
+	for i := 0; i < fds.Len(); i++ {
+		fd := fds.Get(i)
+		if fd.Message() != nil && !fd.IsList() && !fd.IsMap() && !fd.Message().IsMapEntry() && fd.Message().ParentFile().Package() != "google.protobuf" {
+			msgs = append(msgs, fd)
+		}
+	}
+	if len(msgs) < 2 || len(msgs) > 4 {
+		return nil
+	}
+	byClass := func(fd protoreflect.FieldDescriptor) map[string]*dynamicpb.Message {
+		out := map[string]*dynamicpb.Message{}
+		for _, lm := range g.FieldClasses(md, fd, nil) {
+			out[lm.Class] = lm.M
+		}
+		return out
+	}
+	var out []LMsg
+	n := 0
+	for i := 0; i < len(msgs); i++ {
+		for j := 0; j < len(msgs); j++ {
+			if i == j {
+				continue
+			}
+			a, b := byClass(msgs[i]), byClass(msgs[j])
+			for _, combo := range [][2]string{{"msg-full0", "msg-empty"}, {"msg-full0", "msg-partial-first"}, {"msg-partial-last", "msg-partial-first"}, {"msg-full1", "msg-partial-last"}} {
+				x, y := a[combo[0]], b[combo[1]]
+				if x == nil || y == nil {
+					continue
+				}
+				m := dynamicpb.NewMessage(md)
+				proto.Merge(m, x)
+				proto.Merge(m, y)
+				out = append(out, LMsg{"pair" + itoa(n), m})
+				n++
+			}
+		}
 	}
 	return out
 }
@@ -441,13 +506,23 @@ func (g *Gen) Combos(md protoreflect.MessageDescriptor, n int) []LMsg {
 	for k := 0; k < n; k++ {
 		r := rand.New(rand.NewSource(int64(7919*fds.Len() + 104729*k + 13)))
 		m := dynamicpb.NewMessage(md)
+		label := "combo" + itoa(k)
+		nonFinite := false
 		for i := 0; i < fds.Len(); i++ {
 			if len(per[i]) == 0 || r.Intn(5) < 2 {
 				continue
 			}
-			proto.Merge(m, per[i][r.Intn(len(per[i]))].M)
+			pick := per[i][r.Intn(len(per[i]))]
+			switch pick.Class {
+			case "nan", "inf", "-inf", "list-all-classes":
+				nonFinite = true
+			}
+			proto.Merge(m, pick.M)
 		}
-		out = append(out, LMsg{"combo" + itoa(k), m})
+		if nonFinite {
+			label += "+nan" // value-class dependent findings (non-finite floats) stay recognisable
+		}
+		out = append(out, LMsg{label, m})
 	}
 	return out
 }
